@@ -557,6 +557,8 @@ func (g *Gen) instr(ins ssa.Instruction) {
 		g.curCall = nil
 		if callee := x.Common().StaticCallee(); callee != nil {
 			g.atPoint("call", callee.Name(), x, x.Pos())
+		} else if b, isB := x.Common().Value.(*ssa.Builtin); isB {
+			g.atPoint("call", b.Name(), x, x.Pos()) // builtins (copy, append, ...) are program points too
 		}
 	case *ssa.Extract:
 		t := g.val(x.Tuple)
@@ -1825,6 +1827,9 @@ func (g *Gen) ensurePointCount() {
 				if c := y.Common().StaticCallee(); c != nil {
 					g.pointCount[i] = cnt["call:"+c.Name()]
 					cnt["call:"+c.Name()]++
+				} else if b, isB := y.Common().Value.(*ssa.Builtin); isB {
+					g.pointCount[i] = cnt["call:"+b.Name()]
+					cnt["call:"+b.Name()]++
 				}
 			}
 		}
